@@ -18,7 +18,7 @@ def run(ctx):
     import json, os
     t = os.path.join(ctx.scratch, "tx-wfail.ndjson")
     ctx.run_driver(["tx", "-wfail", 2000 if thorough else 250, "-seed", ctx.seed, "-out", t])
-    ctx.validate("", "Trace_TxPath", "Trace_TxPath.cfg", t, label="transport failure after k bytes of a request write")
+    ctx.validate("", "Trace_TxPath", "Trace_TxPath.cfg", t, label="transport failure after k bytes of a request write", extra_env={"JUDGE": "C14"})
     ctx.extra.update({"fail_runs_timeout0": s1["runs"], "fail_runs_timeout1": s2["runs"]})
     ctx.assumptions += [
         "the failing transport keeps returning the same failure for every later read (a dead peer)",
